@@ -12,6 +12,8 @@
 //! items of every add and of every module. Libraries with more than one
 //! injected defect are left out (counted). Tier bounds: `bounds()`.
 //! One more unit runs the `library!` macro forms (`macros.rs`).
+//! Further units (`impls.rs`) let the target type of an impl block range over
+//! primitives, `()`, Val types and the built-in compound constructors.
 //!
 //! Oracle: `model.rs` predicts Ok/Err of the constructors and of every add;
 //! the implementation (`real.rs`) must agree and must not panic. After Ok a
@@ -535,7 +537,7 @@ impl Check for C18 {
     fn meta(&self, cfg: &Cfg) -> Meta {
         let b = bounds(cfg.tier);
         Meta {
-            rule: "states = literal libraries (item tree + names + distribution over adds), all distinct by construction; every one is executed in every permutation of the items of each add and of each module (transitions). Libraries with more than one independent defect are left out (counters.libraries_with_more_than_one_defect_left_out). A library is non-trivial when it has at least two items and an injected defect, a module, or an item that refers to another item of the library (a use of a library item, a signature / impl / constant of a type the library registers)".into(),
+            rule: "states = literal libraries (item tree + names + distribution over adds), all distinct by construction; every one is executed in every permutation of the items of each add and of each module (transitions). Libraries with more than one independent defect are left out (counters.libraries_with_more_than_one_defect_left_out). A library is non-trivial when it has at least two items and an injected defect, a module, or an item that refers to another item of the library (a use of a library item, a signature / impl / constant of a type the library registers). An impl-target configuration (impls.rs) is non-trivial when its target is a compound type or its block has an item".into(),
             assumptions: vec![
                 "valid names of the pool are interchangeable: the equality pattern of the names is enumerated exhaustively, the concrete names a/b/T/é are rotated over the patterns".into(),
                 "use paths are absolute; a `use` inside a module is expected not to bind anything in the root (whether it is visible as `module.name` is left open)".into(),
@@ -555,6 +557,8 @@ impl Check for C18 {
                 "defects_per_library": "0..=1",
                 "skeletons": plan(cfg.tier).skels.len(),
                 "library_macro_forms": macros::forms().len(),
+                "impl_target_types": impls::targets().len(),
+                "impl_target_family": "target type of an impl block: 16 primitives, (), Val<A>, Val<B>, and Option/List/Result<_,bool>/Result<bool,_>/Verdict<_,bool>/Verdict<bool,_> over {u32,bool,String,Val<A>,Val<B>} and (nested once) over Option/List/Result/Verdict of {u32,Val<A>,Val<B>}; block item: none / method / static function / constant; block at the root / inside a module; the Val type it mentions: unregistered / same add before / same add after / earlier add / later add",
             }),
             states_are: "literal libraries (item tree, names, distribution over 1-2 adds)".into(),
             transitions_are: "registration histories executed on a fresh Runtime (one per permutation of the items), each followed by the probe scripts when it succeeds".into(),
